@@ -74,6 +74,7 @@ class Site:
                 self.revs[int(revid)] = (t, text)
         self.served_texts = set()
         self.request_log = []
+        self.url_scheme = "http:"  # or "" : protocol-relative upload URLs
 
     # ---- titles -------------------------------------------------------------------
     def ns_of(self, title):
@@ -376,8 +377,9 @@ class Site:
             ns_on_host = self.file_ns if where == "local" else "File"
             desc_base = self.article_base if where == "local" else self.shared_article_base
             pg["imageinfo"] = [{
-                "url": f"http://{UPLOAD_HOST}/full/{u}",
-                "thumburl": f"http://{UPLOAD_HOST}/thumb/{u}/{width}px-{u}",
+                # (wikis behind a protocol-agnostic front end report protocol-relative URLs)
+                "url": f"{self.url_scheme}//{UPLOAD_HOST}/full/{u}",
+                "thumburl": f"{self.url_scheme}//{UPLOAD_HOST}/thumb/{u}/{width}px-{u}",
                 "thumbwidth": width, "thumbheight": width, "width": 2 * width, "height": 2 * width,
                 "descriptionurl": f"{desc_base}{ns_on_host}:{u}",
                 "sha1": hashlib.sha1(thumb_bytes(partial, rec["size"])).hexdigest(), "size": rec["size"],
@@ -432,6 +434,8 @@ class World:
         else:
             self.commons = Site(COMMONS_HOST, "en", cpages, shared_imgs)
         self.sites = {self.local.api_url: self.local, self.commons.api_url: self.commons}
+        if spec.get("protocol_relative"):
+            self.local.url_scheme = self.commons.url_scheme = ""
         self.downloads = []
 
     def site_for(self, url):
@@ -574,11 +578,18 @@ def gen_spec(rng, size="small"):
         return " ".join(p for p in parts if p)
 
     n_a = rng.randint(1, 6 if size == "small" else 14)
+    long_titles = rng.random() < 0.1
+    if long_titles:
+        n_a = max(n_a, rng.randint(10, 16))
     if size == "huge":
         n_a = rng.randint(MAX_VALUES + 6, MAX_VALUES + 20)  # a book with more articles than one request may name
     # titles with characters that must be escaped in a query string; a colon that is no namespace prefix
     anames = [f"{rng.choice(['Art', 'Über', 'Page', 'Art', 'Page', 'C++', 'Q&A', 'A=b', '50%', 'Saga: Part', 'Art'])} {i}"
               for i in range(n_a)]
+    if long_titles:
+        # long titles: a block of them makes a request URL of several thousand bytes
+        tail = " – " + " ".join(rng.choice(["Ünïcödé", "Überschrift", "considerations", "東京都", "naïveté"]) for _ in range(rng.randint(6, 12)))
+        anames = [a + tail for a in anames]
     if rng.random() < 0.25:
         # a title that is a number (a year): not to be mistaken for a revision id (those stay below 7000)
         anames[rng.randrange(n_a)] = str(7000 + rng.randrange(3000))
@@ -673,4 +684,5 @@ def gen_spec(rng, size="small"):
     # a metabook carries its revision ids either all as integers or all as strings (JSON metabooks,
     # collection pages)
     return {"lang": lang, "pages": pages, "images": images, "metabook": mb, "revs_as_str": rng.random() < 0.3,
-            "farm": rng.random() < 0.3, "unresolvable": rng.choice(["link", "link", "empty"])}
+            "farm": rng.random() < 0.3, "unresolvable": rng.choice(["link", "link", "empty"]),
+            "protocol_relative": rng.random() < 0.2, "long_titles": long_titles}
